@@ -6,6 +6,9 @@ from vlib import Ctx, Inconclusive, main_wrap, pick, SPEC, log
 CONSTS = {"Members": '{"m1", "m2", "m3"}', "Ids": '{"m1", "m2", "m3", "zz", ""}', "AsCoded": "FALSE", "GenCanon": "FALSE"}
 
 QUICK_N = 900
+ISO_CHUNK = 1500
+MAX_SCENARIOS = 30000   # guard: every isolated child parses the whole scenario file
+QUICK_FAMS = ("route2", "probe", "sub1", "sub2", "mix", "init", "lu", "w3q")
 
 GEN_CFG = """SPECIFICATION Spec
 CONSTANTS
@@ -72,7 +75,7 @@ def scenarios(ctx, scripts):
         has_sel = any(s["a"] == "select" for s in sc["steps"])
         if has_sel:
             variants = [("event", True), ("event", False), ("poll", True), ("nic", True)]
-            if not ctx.quick():
+            if not ctx.quick() and sc["fam"] in QUICK_FAMS:
                 variants += [("poll", False), ("nic", False)]
         else:
             variants = [("event", False), ("polldefault", False)]
@@ -129,19 +132,24 @@ def run():
     if ctx.quick():
         corners = [s for s in scs if "/corner/" in s["id"]]
         scs = pick([s for s in scs if "/corner/" not in s["id"]], QUICK_N, ctx.seed) + corners
+    if len(scs) > MAX_SCENARIOS:
+        raise Inconclusive("generator families produce %d scenarios (> %d): trim the families in MultiTransport.tla" % (len(scs), MAX_SCENARIOS))
     log("[C19] %d scripts, %d scenarios (of %d)" % (len(scripts), len(scs), total))
     # scenarios naming an id outside the member set run one process per scenario: a panic in a library
     # goroutine would otherwise take the whole runner down (event Exit -> clause ProcessDied)
     iso = [s for s in scs if unknown(s["p"], s["steps"])]
     plain = [s for s in scs if not unknown(s["p"], s["steps"])]
     trace = os.path.join(ctx.work, "c19-all.ndjson")
+    # (isolated children parse their whole scenario file: keep the files small)
+    parts = [(plain, "c19", False)] + [(iso[i:i + ISO_CHUNK], "c19unk%d" % (i // ISO_CHUNK), True) for i in range(0, len(iso), ISO_CHUNK)]
     with open(trace, "w") as out:
-        for part, name, isolate in ((plain, "c19", False), (iso, "c19unk", True)):
+        for part, name, isolate in parts:
             if not part:
                 continue
             t = ctx.run_scenarios(part, name, par=16, isolate=isolate)
             with open(t) as f:
                 out.write(f.read())
+            os.remove(t)
     verdicts, r = ctx.validate(trace, "MonC19", consts=CONSTS)
     ctx.judge(scs, trace, verdicts)
     ctx.finish(rule="scenarios = every complete environment script (select(id) over members / non-members / \"\", write, memberRead, read, "
